@@ -1161,7 +1161,7 @@ static lzma_ret
 lzma_decoder_init(lzma_lz_decoder *lz, const lzma_allocator *allocator,
 		lzma_vli id, const void *options, lzma_lz_options *lz_options)
 {
-	if (!is_lclppb_valid(options))
+	if (options == NULL || !is_lclppb_valid(options))
 		return LZMA_PROG_ERROR;
 
 	lzma_vli uncomp_size = LZMA_VLI_UNKNOWN;
@@ -1239,7 +1239,7 @@ lzma_lzma_decoder_memusage_nocheck(const void *options)
 extern uint64_t
 lzma_lzma_decoder_memusage(const void *options)
 {
-	if (!is_lclppb_valid(options))
+	if (options == NULL || !is_lclppb_valid(options))
 		return UINT64_MAX;
 
 	return lzma_lzma_decoder_memusage_nocheck(options);
